@@ -67,7 +67,12 @@ let read_tapes file =
   close_in ic; tbl
 
 let parse_event (s : string) : P.event =
-  match String.split_on_char ':' s with
+  (* the tag may carry the name of the stream the outcome was drawn from: tag@stream *)
+  let fields = match String.split_on_char ':' s with
+    | tag :: rest -> (match String.index_opt tag '@' with
+        | Some i -> String.sub tag 0 i :: rest | None -> tag :: rest)
+    | [] -> [] in
+  match fields with
   | ["draw"; l] -> P.EvDraw (zs_of l)
   | ["draw"] -> P.EvDraw []
   | ["establish"; t; p; r] -> P.EvEstablish (parse_q t, parse_q p, r = "1")
